@@ -29,6 +29,16 @@ def make_cases(rng, tier, n):
                 c["init"].append(("file", p + b"/bottom.bin", "g:5:65537"))
                 c["timeout"] = 60
                 stats["deep_chain"] = stats.get("deep_chain", 0) + 1
+        if i % 15 == 11:
+            # sub-directories (and files) named exactly like the field names of the manifest schemas, old and new
+            dart1 = [a for a in s1eval.artifacts(c) if a[1] == "d"]
+            if dart1:
+                p0 = dart1[0][0]
+                for nm in (b"Path", b"Checksum", b"IsDir", b"SkipCache", b"DisableRecursion", b"path", b"is-dir", b"Contents"):
+                    if not any(e[1] == p0 + b"/" + nm for e in c["init"]):
+                        c["init"].append(("dir", p0 + b"/" + nm))
+                        c["init"].append(("file", p0 + b"/" + nm + b"/inner.txt", "g:%d:%d" % (rng.randrange(1000), rng.choice([0, 7, 300]))))
+                stats["schema_field_dirs"] = stats.get("schema_field_dirs", 0) + 1
         if fam == "pipeline" and len(c["stages"]) >= 2:
             # later stages take an earlier stage's outputs (and a path inside a directory output) as inputs
             for k in range(1, len(c["stages"])):
@@ -71,7 +81,7 @@ def make_cases(rng, tier, n):
         if variant == "clone":
             ops.append(("clone", keep))
         elif variant == "move":
-            ops += [("moveproj", "rel" if c["cache"] in ("rel", "sym") else "abs"), ("clone", keep)]
+            ops += [("moveproj", "rel" if c["cache"] in ("rel", "sym", "symx") else "abs"), ("clone", keep)]
         else:
             for p, fl, sp in s1eval.artifacts(c):
                 if "s" not in fl:
